@@ -270,6 +270,16 @@ pub fn on_callback_event(wd: &World, cb: Cb, _id: u32) {
         }
     }
     if wd.in_collection.get() {
+        // the running collection has started, so it is already part of the count (only judged for collections the
+        // interpreter requested itself; automatic ones are judged when the creating call returns)
+        if wd.coll_explicit.get() && wd.new_in_flight.get() == 0 && wd.fault_fired.get() == 0 {
+            if let Ok(e) = state::executions_count() {
+                if e as u64 != wd.expected_exec.get() {
+                    wd.coll_explicit.set(false);
+                    wd.err("C11", "executions_count", format!("executions_count_inside_collection_off_by_{}", e as i64 - wd.expected_exec.get() as i64), format!("inside a callback of a running collection state::executions_count() = {} but {} collections have been started (the running one included)", e, wd.expected_exec.get()));
+                }
+            }
+        }
         wd.coll_cb_events.set(wd.coll_cb_events.get() + 1);
         if wd.coll_cb_events.get() > wd.coll_cb_bound.get() {
             wd.coll_cb_bound.set(u64::MAX);
@@ -285,6 +295,7 @@ pub fn collection_starting(wd: &World, explicit: bool) {
     wd.coll_finalizers.set(0);
     wd.coll_resurrected.set(false);
     wd.coll_mutated.set(false);
+    wd.coll_explicit.set(explicit);
     if explicit {
         wd.expected_exec.set(wd.expected_exec.get() + 1);
     } else {
@@ -323,6 +334,7 @@ pub fn collection_finished(wd: &World, normal: bool) {
         }
     }
     drop(m);
+    wd.coll_explicit.set(false);
     wd.coll_drop_phase.set(false);
     wd.coll_cb_bound.set(u64::MAX);
     #[cfg(feature = "auto-collect")]
@@ -687,6 +699,9 @@ pub fn post_new(wd: &World, pre: &PreNew, ok: bool, what: &str) {
             } else {
                 "other"
             };
+            if pre.in_collection && own > 0 {
+                wd.err("C12", "nested_collection_ran", format!("creation_started_collection_inside_collection:{}", wd.stack_sig()), format!("{} called from a callback of a running collection started {} collection(s) (stack {})", what, own, wd.stack_sig()));
+            }
             wd.err("C15", "trigger_decision", format!("trigger_{}_expected_{}:{}", own, p as i64, kind), format!("{}: {} collection(s) started by the creation itself, expected {} (auto_collect={}, allocated={}, threshold={}, buffered={}, buffered_threshold={}, already collecting={})", what, own, p as i64, pre.auto, pre.allocated, pre.threshold, pre.buffered, pre.bt, pre.in_collection));
         } else if ok && p && wd.fault_fired.get() == 0 && nested == 0 && !pre.policy_done.get() {
             policy_after_collection(wd, wd.last_box_alloc.get().1, what);
